@@ -552,37 +552,26 @@ func (s *scope) createInstance(descriptor *Descriptor) (any, error) {
 			}
 		}
 
-		// Find the primary service to return
+		// Store every field under the descriptor this registration created for it
 		var primaryService any
 		for _, reg := range registrations {
-			value := reg.Value
-
-			// Convert empty string key to nil for consistent lookup
-			var regKey any
-			if reg.Key != "" {
-				regKey = reg.Key
-			}
-
-			if reg.Type == descriptor.Type && regKey == descriptor.Key {
-				primaryService = value
-			}
-
-			regDescriptor := s.rootProvider.findDescriptor(reg.Type, regKey)
+			regDescriptor := s.outputDescriptor(descriptor, func(d *Descriptor) bool { return d.resultField == reg.Name })
 			if regDescriptor == nil {
-				return nil, &ResolutionError{
-					ServiceType: reg.Type,
-					ServiceKey:  regKey,
-					Cause:       fmt.Errorf("no descriptor found for return type %v", reg.Type),
-				}
+				// That field's registration was removed from the collection
+				continue
+			}
+
+			if regDescriptor == descriptor {
+				primaryService = reg.Value
 			}
 
 			key := instanceKey{
-				Type:  reg.Type,
-				Key:   regKey,
-				Group: reg.Group,
+				Type:  regDescriptor.Type,
+				Key:   regDescriptor.Key,
+				Group: regDescriptor.Group,
 			}
 
-			s.setInstance(regDescriptor, key, value)
+			s.setInstance(regDescriptor, key, reg.Value)
 		}
 
 		if primaryService == nil {
@@ -604,14 +593,11 @@ func (s *scope) createInstance(descriptor *Descriptor) (any, error) {
 
 			value := results[ret.Index].Interface()
 
-			// Find the descriptor for this return type
-			serviceDescriptor := s.rootProvider.findDescriptor(ret.Type, nil)
+			// Find the descriptor this registration created for this return value
+			serviceDescriptor := s.outputDescriptor(descriptor, func(d *Descriptor) bool { return d.MultiReturnIndex == ret.Index })
 			if serviceDescriptor == nil {
-				return nil, &ResolutionError{
-					ServiceType: ret.Type,
-					ServiceKey:  nil,
-					Cause:       fmt.Errorf("no descriptor found for return type %v", ret.Type),
-				}
+				// That return type's registration was removed from the collection
+				continue
 			}
 
 			key := instanceKey{
@@ -651,6 +637,18 @@ func (s *scope) createInstance(descriptor *Descriptor) (any, error) {
 	}
 
 	return instance, nil
+}
+
+// outputDescriptor returns the descriptor that the registration of the given
+// descriptor created for one of its outputs, if this provider's snapshot of the
+// registrations still holds it.
+func (s *scope) outputDescriptor(descriptor *Descriptor, isOutput func(*Descriptor) bool) *Descriptor {
+	for _, output := range descriptor.outputs {
+		if isOutput(output) && s.rootProvider.holds(output) {
+			return output
+		}
+	}
+	return nil
 }
 
 // shareInstance caches an instance under a further identity without tracking
